@@ -287,7 +287,7 @@ def run(ctx):
     found = False
     try:
         if ctx.tier == "quick":
-            plan = [("small", 25), ("mid", 35)]
+            plan = [("small", 60), ("mid", 120)]
         else:
             plan = [("small", 500), ("mid", 1000), ("big", 10)]
         reported = set()
